@@ -169,6 +169,7 @@ func cmdC02(args []string) error {
 	reps := fs.Int("reps", 4, "commits per pair")
 	sample := fs.Bool("sample", true, "model mode: seeded sample of the universe (false: case index = pair index)")
 	subset := fs.String("subset", "all", "model mode: all | nokind (pairs in which no path changes kind) | kind")
+	stride := fs.Int("stride", 1, "model mode with a subset: keep every stride-th pair of the subset")
 	out := fs.String("out", "c02.ndjson", "trace output")
 	fs.Parse(args)
 	w, err := newNDJSON(*out)
@@ -184,6 +185,14 @@ func cmdC02(args []string) error {
 			if (kc && *subset == "kind") || (!kc && *subset == "nokind") {
 				pool = append(pool, idx)
 			}
+		}
+		if *stride > 1 {
+			// a FIXED subset (every stride-th pair of the subset), the same under every seed
+			var thin []int
+			for i := 0; i < len(pool); i += *stride {
+				thin = append(thin, pool[i])
+			}
+			pool = thin
 		}
 		npairs = len(pool)
 	}
